@@ -64,6 +64,50 @@ def run(ctx):
         if diff:
             bad.append({"what": "shifting every date by whole weeks did not shift the schedule by the same amount", "weeks": k,
                         "differences": dict(list(diff.items())[:4]), "project": projects.render(ap), "shifted_project": projects.render(ap2)})
+    # ---- the dates as REPORTED: 'plan report --csv' of the project as given and shifted (year-end projects first)
+    import cli, csv, io, datetime
+    from concurrent.futures import ThreadPoolExecutor
+    pick = [i for i, ap in enumerate(base) if ap.get("_family") == "yearend"][: ctx.n(16, 120)] + \
+           [i for i, ap in enumerate(base) if ap.get("_family") == "core"][: ctx.n(6, 40)]
+    box = cli.Box(ctx)
+    try:
+        jobs = []
+        for i in pick:
+            box.put(f"a{i}.tjp", projects.render(base[i]))
+            box.put(f"b{i}.tjp", projects.render(shifted[i]))
+            jobs += [(i, "a", ["--quiet", "report", "--csv", f"a{i}.tjp"]), (i, "b", ["--quiet", "report", "--csv", f"b{i}.tjp"])]
+        with ThreadPoolExecutor(max_workers=common.NPROC) as ex:
+            outs = list(ex.map(lambda j: box.run(j[2]), jobs))
+
+        def rows(r):
+            if r["rc"] != 0:
+                return None
+            rr = [x for x in csv.reader(io.StringIO(r["out"].decode(errors="replace"))) if x]
+            return {x[0]: (x[1], x[2]) for x in rr[1:] if len(x) >= 3}
+
+        def plus(sv, d):
+            if not sv:
+                return sv
+            return (datetime.datetime.strptime(sv, "%Y-%m-%d-%H:%M") + datetime.timedelta(seconds=d)).strftime("%Y-%m-%d-%H:%M")
+        res = {(j[0], j[1]): rows(r) for j, r in zip(jobs, outs)}
+        for i in pick:
+            ra_, rb_ = res[(i, "a")], res[(i, "b")]
+            if ra_ is None or rb_ is None:
+                if (ra_ is None) != (rb_ is None):
+                    bad.append({"what": "'plan report' succeeded for one of the two projects only", "weeks": kk[i], "project": projects.render(base[i])})
+                continue
+            stats["reports_compared"] += 1
+            d = kk[i] * WEEK
+            try:
+                diff = {t: {"reported": v, "reported_shifted": rb_.get(t)} for t, v in ra_.items()
+                        if rb_.get(t) != (plus(v[0], d), plus(v[1], d))}
+            except ValueError as ex_:
+                diff = {"?": {"unparsable date in the report": str(ex_)}}
+            if diff:
+                bad.append({"what": "the dates in the report ('plan report --csv') of the shifted project are not the reported dates plus the offset", "weeks": kk[i],
+                            "differences": dict(list(diff.items())[:4]), "project": projects.render(base[i]), "shifted_project": projects.render(shifted[i])})
+    finally:
+        box.close()
     violations = []
     if bad:
         violations.append({"replay": common.write_replay(ctx, {"property": "C14", "kind": "failing input on the implementation", "finding": bad[0], "count": len(bad)})})
@@ -71,7 +115,7 @@ def run(ctx):
         violations.append({"no_input": True, "replay": common.write_replay(ctx, {"property": "C14", "kind": "proof obligation no longer checks; no failing input found", "failing_obligations": failing})})
     cov = {"obligations": nob, "discharged": ndis, "checker_cmd": "tools/coqbuild.sh (coqc 8.16.1 full .vo build) after translate/py2v.py /repo -> coq/Gen", "trusted_base": common.TRUSTED, "files": files,
            "traces_validated_against_impl": stats["compared"], "input_distribution": dict(stats),
-           "rule": "UTC projects (limits on resources/groups/tasks, own hours and shifts, leaves, vacations, holidays, pinned starts, ALAP deadlines; starts incl. year ends, 53-week years, Sundays, times of day) scheduled as given and with every date moved by k weeks, k in {1,2,3,26,51,52,53,60,104,157,209,261,300} (across leap days, year ends and 53-week ISO years)",
+           "rule": "UTC projects (limits on resources/groups/tasks, own hours and shifts, leaves, vacations, holidays, pinned starts, ALAP deadlines; starts incl. year ends, 53-week years, Sundays, times of day) scheduled as given and with every date moved by k weeks, k in {1,2,3,26,51,52,53,60,104,157,209,261,300} (across leap days, year ends and 53-week ISO years); for the year-end projects also the dates printed by 'plan report --csv' of both",
            "samples": [{"weeks": kk[0], "project": projects.render(base[0])[:800]}]}
     common.finish(ctx, "proof", cov, violations,
                   ["project end given in days/weeks (month/year durations move the end by a non-week amount by definition)",
